@@ -14,6 +14,9 @@ CFG = dict(
          "(error block, stale active flag) and flag refresh; `pair` = 2-6 rounds of TWO requests in flight at once from two goroutines, one that must fail and one that must succeed "
          "(fixed requests whose reply does not depend on the other), gated so that the first caller is parked between handing over its request and receiving its "
          "result while the second is let through first whenever it gets that far; each caller's reply must be the model's reply to ITS request; "
+         "`hw` = the real AbacoSource on a scripted packet producer and the real LanceroSource on a simulated card (getNextBlock launches an "
+         "assembler goroutine per call), started/stopped through the real SourceControl: blocks, 1-5 requests of different kinds (each answered once, replies = model), more "
+         "blocks (progress), Stop - or, one case per quick run, the Abaco packet stream ending by itself; "
          "`timing` = every gate site gated and a seeded scheduler choosing when 1-4 callers, 0-2 Stops, "
          "blocks and the source's own end happen; `fault` = comment file uncreatable, data-drop file uncreatable while a block is processed, pixel map vs "
          "channel numbers, Lancero mix requests through the real request consumer (indices, list lengths). Each reply is compared with the Lean request "
